@@ -29,6 +29,21 @@ def finite_out(s):
     return True
 
 
+def svg_has_huge_number(hexstr):
+    import re
+    try:
+        txt = bytes.fromhex(hexstr[1:]).decode('utf-8', 'replace')
+    except ValueError:
+        return False
+    for m in re.finditer(r'[-+]?(?:\d+\.?\d*|\.\d+)(?:[eE][-+]?\d+)?', txt):
+        try:
+            if abs(float(m.group(0))) > 1e15:
+                return True
+        except (ValueError, OverflowError):
+            return True
+    return False
+
+
 @maker(MAKERS)
 def total(line, stratum):
     """no panic, finite output, bounded work"""
@@ -39,6 +54,8 @@ def total(line, stratum):
         if engine_error(i):
             return 'engine error ' + i
         if not finite_out(i):
+            if line.startswith('svg.parse') and svg_has_huge_number(line.split()[1]):
+                return None      # a numeral beyond the supported coordinate range (|x| > 1e15, e.g. 1e999): outside the domain, see DESIGN.md 11
             return f'non-finite output: {i[:200]}'
         if ' | ' in i:
             w = i.split(' | ')[0].split()[0]
@@ -154,6 +171,10 @@ def generate(rng, tier):
             yield total(f'svg.parse {hx("".join(tup))}', 'svg-exhaustive')
     for _ in range(n * 4):
         yield total(f'svg.parse {hx("".join(rng.choice(FULL) for _ in range(rng.randint(1, 64))))}', 'svg-random')
+    for _ in range(n):
+        # numbers at the edge of the supported range and relative moves that add up (finite literals <= 1e15 must give finite paths)
+        e = rng.choice(['1e15', '-9.9e14', '1e-320', '123456789012345', '0.000000000000001', '1E+15'])
+        yield total(f'svg.parse {hx("M" + e + " 0l" + e + " " + e + "c1 1 2 2 " + e + " 0z")}', 'svg-large-numbers')
 
 
 def _parse_path_line(line):
